@@ -40,7 +40,8 @@ def build(case):
         meter.iloc[-1] = np.nan
         day_starts = day_starts[: day_starts.get_loc(reads[-1]) + 1]
     step = pd.Timedelta(minutes=case["minutes"])
-    stamps = pd.date_range(day_starts[0], day_starts[-1] + pd.DateOffset(days=1), freq=step, inclusive="left").tz_convert(feed_tz)
+    # the feed runs one day past the day that begins with the last reading, so that this day is not the feed's own (open-ended) final day
+    stamps = pd.date_range(day_starts[0], day_starts[-1] + pd.DateOffset(days=1 + int(case.get("feed_extra_days", 1))), freq=step, inclusive="left").tz_convert(feed_tz)
     n = len(stamps)
     temp = pd.Series(np.round(50 + 25 * np.sin(np.arange(n) * (case["minutes"] / 60.0) / 24 * 2 * np.pi) + np.linspace(-10, 10, n) + rng.normal(0, 1, n), 3),
                      index=stamps, name="temperature")
@@ -58,7 +59,8 @@ def build(case):
 
 def reference(temp, day_starts):
     pos = np.searchsorted(day_starts.asi8, temp.index.asi8, side="right") - 1
-    ok = pos >= 0
+    # readings after the 24 hours that begin with the last meter stamp belong to no meter day
+    ok = (pos >= 0) & (temp.index < day_starts[-1] + pd.DateOffset(days=1))
     t = temp[ok]
     g = t.groupby(day_starts[pos[ok]])
     ref = pd.DataFrame({"mean": g.mean(), "present": g.count(), "total": g.size()})
@@ -91,7 +93,8 @@ def replay(case):
     all_nan = bool(got.reindex(day_starts[:-1]).isna().all())
     # the final day of the FEED inside the data object is excluded as well (billing from_series trims the feed at the last read, and the
     # last reading of a feed has no successor to give it a duration)
-    days = day_starts[:-2] if case["cls"].startswith("Billing") else day_starts[:-1]
+    # (daily classes: the day that begins with the LAST reading is in the data object too -- the feed built here covers its 24 hours)
+    days = day_starts[:-2] if case["cls"].startswith("Billing") else (day_starts if case["minutes"] == 60 else day_starts[:-1])     # (sub-hourly feeds are cut at the last meter stamp's day: that day is the feed's own open-ended final day)
     for day in days:
         if day not in ref.index:
             continue
@@ -124,6 +127,11 @@ def replay(case):
                     c_bad.append(msg)
         elif sdf is not None and "temperature_not_null" in sdf.columns:
             c_bad.append(f"{day}: no coverage counts for this meter day")
+    if not case["cls"].startswith("Billing") and case["entry"] == "from_series":
+        # (from_series keeps the span of the METER series; a frame keeps whatever rows it was given)
+        beyond = [d for d in got.index if d >= day_starts[-1] + pd.DateOffset(days=1)]
+        if beyond:
+            t_bad.append(f"the data object has {len(beyond)} day(s) after the day of the meter's last reading, e.g. {beyond[0]}")
     return {"ok": not (t_bad or t_known or c_bad or c_known), "temperature": {"bad": t_bad[:5], "known": t_known[:3]}, "counts": {"bad": c_bad[:5], "known": c_known[:3]},
             "problems": (t_bad + c_bad)[:6] or [m for _, m in (t_known + c_known)[:4]]}
 
@@ -170,6 +178,19 @@ def cases(tier, seed):
                 "read_hour": 0, "gaps": [(8, 5, 11)], "nan_frac": 0.0, "seed": 4})                           # ... the same through the billing class
     out.append({"tz": "America/Chicago", "feed_tz": "UTC", "start": "2021-06-03", "n_days": 16, "minutes": 30, "cls": "DailyBaselineData", "entry": "from_series",
                 "read_hour": 6, "gaps": [(3, 4, 10)], "nan_frac": 0.0, "seed": 5})                          # half-hourly feed, meter read at 06:00
+    # a meter read at 06:00 with an hourly feed: every meter day, the LAST one included, is the meter's own 24 hours
+    for entry in ("frame", "from_series"):
+        out.append({"tz": "America/Chicago", "feed_tz": "UTC", "start": "2021-06-03", "n_days": 12, "minutes": 60, "cls": "DailyBaselineData", "entry": entry,
+                    "read_hour": 6, "gaps": [(3, 4, 5)], "nan_frac": 0.0, "seed": 6})
+    # a meter series whose FIRST day is the day of a clock change (23 / 25 hours), hourly feed running past the meter
+    for start in ("2021-03-14", "2021-11-07"):
+        for cls in ("DailyBaselineData", "DailyReportingData"):
+            out.append({"tz": "America/Chicago", "feed_tz": "America/Chicago", "start": start, "n_days": 12, "minutes": 60, "cls": cls, "entry": "from_series",
+                        "read_hour": 0, "gaps": [(4, 3, 6)], "nan_frac": 0.0, "seed": 7})
+    # half-hourly feed, the day of the clock change (46 / 50 readings) blank within one reading of one half
+    for start, k in (("2021-03-06", 22), ("2021-03-06", 23), ("2021-10-30", 24), ("2021-10-30", 25)):
+        out.append({"tz": "America/Chicago", "feed_tz": "America/Chicago", "start": start, "n_days": 12, "minutes": 30, "cls": "DailyReportingData", "entry": "frame",
+                    "read_hour": 0, "gaps": [(8, 10, k)], "nan_frac": 0.0, "seed": 8})
     return out
 
 
